@@ -49,6 +49,10 @@ def okObs (strict : Bool) (h : Hist) : Obs → Bool
   | .goaway g => okGoaway h g && (!strict || noRetract h g)
   | .surfaced i => !mustReject h i
   | .rejected i => mustReject h i
+  -- "every request below it is still served": a request shown to the application (by the clause
+  -- above it is below the line) whose peer sent a complete well-formed request is never refused
+  -- service afterwards, whatever GOAWAY was sent or received in between
+  | .notServed _ => false
   | _ => true
 
 def valid (strict : Bool) : Hist → List Obs → Bool
